@@ -276,7 +276,41 @@ func c07Case(t *rapid.T, ev *evProp, gi *GroupInfo, maxN int) {
 			c2[i], _ = genBig(t, q, fmt.Sprintf("d%d", i))
 			k2[i] = scalarFromBig(g, c2[i])
 		}
-		pri2 := share.CoefficientsToPriPoly(g, k2)
+		// the second polynomial lives on ANOTHER handle of the same group where the harness has one
+		// (a second suite instance, a second call of suite.G1()): two parties of one process, or two
+		// calls of an accessor, never share the group object
+		g2 := g
+		if gi.Alt != nil && rapid.Bool().Draw(t, "althandle") {
+			g2 = gi.Alt
+			for i := range k2 {
+				k2[i] = scalarFromBig(g2, c2[i])
+			}
+		}
+		pri2 := share.CoefficientsToPriPoly(g2, k2)
+		// Equal is equality of coefficient vectors: a copy on the other handle is Equal, a copy with
+		// one coefficient changed is not; the same for the commitments
+		{
+			kc2 := make([]kyber.Scalar, th)
+			for i := range kc2 {
+				kc2[i] = scalarFromBig(g2, coeffs[i])
+			}
+			twin := share.CoefficientsToPriPoly(g2, kc2)
+			if !pri.Equal(twin) || !twin.Equal(pri) {
+				fail("priequal", "a polynomial with the same coefficients (other group handle: %v) is not Equal", g2 != g)
+			}
+			if !pri.Commit(base).Equal(twin.Commit(base)) {
+				fail("pubequal", "commitments of equal polynomials (other group handle: %v) are not Equal", g2 != g)
+			}
+			j := rapid.IntRange(0, th-1).Draw(t, "eqcoef")
+			kc2[j] = g2.Scalar().Add(kc2[j], g2.Scalar().One())
+			other := share.CoefficientsToPriPoly(g2, kc2)
+			if pri.Equal(other) || other.Equal(pri) {
+				fail("priequal", "polynomials differing in coefficient %d are Equal", j)
+			}
+			if !effBase.Equal(nullPoint(gi)) && pri.Commit(base).Equal(other.Commit(base)) {
+				fail("pubequal", "commitments of polynomials differing in coefficient %d are Equal", j)
+			}
+		}
 		sum, err := pri.Add(pri2)
 		if err != nil {
 			fail("polyadd", "Add failed: %v", err)
